@@ -79,7 +79,7 @@ def main(tier):
         for name, cs in fams:
             counts[name] = len(cs)
             allcases += cs
-        units = core.pack(allcases, per_unit=600)
+        units = core.pack(allcases, per_unit=800)
         # the copying collector starts 4x faster than the default one; collector independence is C03's subject
         evals = check_units(c, tc, scratch, units, gc="copy")
         if tier == "thorough":
